@@ -251,10 +251,10 @@ package bgp
 
 //@ func (*IPAddrPrefixDefault).decodePrefix
 //@   modifies r.*
-//@   ensures err != nil ==> freshMsgErr(err)
+//@   ensures err != nil ==> freshMsgErr(err) && errClass(err) == ERROR_HANDLING_SESSION_RESET
 //@ func (*IPAddrPrefix).decodeFromBytes
 //@   modifies r.*
-//@   ensures err != nil ==> freshMsgErr(err)
+//@   ensures err != nil ==> freshMsgErr(err) && errClass(err) == ERROR_HANDLING_SESSION_RESET
 //@ func (*IPAddrPrefix).Len
 //@   inline
 
@@ -368,7 +368,7 @@ package bgp
 //@ func GetPathAttribute
 //@   modifies nothing
 //@   ensures result1 == nil ==> result0 != nil && fresh(result0)
-//@   ensures result1 != nil ==> freshMsgErr(result1)
+//@   ensures result1 != nil ==> freshMsgErr(result1) && errClass(result1) == ERROR_HANDLING_SESSION_RESET
 //@ func getBGPUpdateAttributes
 //@   modifies nothing
 //@   ensures result != nil
@@ -400,12 +400,18 @@ package bgp
 //@   loop 0 decreases int(routelen)
 //@   loop 1 invariant len(data) >= int(pathlen) && len(data) <= 65535
 //@   loop 1 invariant strongestError == nil || isMsgErr(strongestError)
+//@   loop 1 invariant errClass(strongestError) <= ERROR_HANDLING_SESSION_RESET
 // from C06: "gets the strongest reaction any of its errors calls for": per attribute, the error raised for it
 // (if any) is accounted for, and the remembered class never decreases
 //@   loop 1 step e != nil ==> errClass(strongestError) >= errClass(e)
 //@   loop 1 step errClass(strongestError) >= header(errClass(strongestError))
+// ... and whatever the function returns, from whichever exit, is at least as strong as everything remembered so
+// far and as the error just raised for the current attribute
+//@   at-return requires errClass(ret0) >= errClass(strongestError)
+//@   at-return requires e != nil ==> errClass(ret0) >= errClass(e)
 //@   loop 1 decreases int(pathlen)
 //@   loop 2 invariant restlen <= len(data)
+//@   loop 2 invariant (strongestError == nil || isMsgErr(strongestError)) && errClass(strongestError) <= ERROR_HANDLING_SESSION_RESET
 //@   loop 2 decreases restlen
 
 //@ func parseBody
